@@ -187,10 +187,13 @@ def ref_pairs(d, latt, coords):
         badj = np.asarray(base.adjacency_matrix()).astype(int)
         bn = base.nsites
         bcoord = {}
-        for i in range(bn):
-            bcoord[tuple(enc_coord(d[1], base.index_to_coord(i)))] = i
+        try:
+            for i in range(bn):
+                bcoord[tuple(enc_coord(d[1], base.index_to_coord(i)))] = i
+            loc = [(int(c[0]), bcoord[tuple(enc_coord(d[1], c[1:]))]) for c in coords]
+        except (Inexact, KeyError):
+            return None          # base coordinates off the exact grid: reported for the base lattice itself
         out = set()
-        loc = [(int(c[0]), bcoord[tuple(enc_coord(d[1], c[1:]))]) for c in coords]
         for i, (l, a) in enumerate(loc):
             for j, (m, b) in enumerate(loc):
                 if (l == m and badj[a, b] != 0) or (l != m and a == b):
@@ -328,9 +331,11 @@ def oracle(ctx, d, fail=None, latt=None, tag=""):
 # implementation.)  A history = construct with caller-owned mutable arguments, modify those arguments, then
 # call the four observables repeatedly, writing into every returned array in place between the calls.
 # Not part of a history: assigning to attributes of a lattice object (no lattice class offers a mutator).
-def build_owned(d, own):
+def build_owned(d, own, variant=0):
     """like build(), but every constructor argument is a mutable object owned by the caller
-    (shape/pbc lists, the adjacency array, the base lattice); they are collected in `own`"""
+    (shape/pbc lists, the adjacency array, the base lattice); they are collected in `own`.
+    variant 1: the adjacency array of a customised lattice is handed over as a bool array (the dtype it is
+    stored in, so that a no-copy conversion in the constructor would keep the caller's array)"""
     import qib.lattice as ql
 
     def keep(what, x):
@@ -349,10 +354,15 @@ def build_owned(d, own):
     if k == "full":
         return ql.FullyConnectedLattice(keep("shape", list(d[1])))
     if k == "custom":
-        return ql.CustomizedLattice(keep("shape", list(d[1])), keep("adj", np.array(d[2], dtype=int).reshape(len(d[2]), -1)))
+        M = np.array(d[2], dtype=int).reshape(len(d[2]), -1)
+        return ql.CustomizedLattice(keep("shape", list(d[1])), keep("adj", (M != 0) if variant else M))
     if k == "layer":
-        return ql.LayeredLattice(keep("base", build_owned(d[1], own)), d[2])
+        return ql.LayeredLattice(keep("base", build_owned(d[1], own, variant)), d[2])
     raise ValueError(k)
+
+
+def has_custom(d):
+    return d[0] == "custom" or (d[0] == "layer" and has_custom(d[1]))
 
 
 def scribble(x, mode=0):
@@ -409,7 +419,18 @@ def snap_diff(a, b):
     return None
 
 
+HIST_SIG = {"ctor": "changed-by-modifying-a-constructor-argument-afterwards", "repeat": "differs-between-identical-calls",
+            "write": "changed-by-in-place-modification-of-an-earlier-result"}
+HIST_RAISE = {"ctor": "modifying-a-constructor-argument", "repeat": "an-identical-earlier-call",
+              "write": "in-place-modification-of-an-earlier-result"}
+
+
 def history_oracle(ctx, d, fail=None):
+    for variant in ((0, 1) if has_custom(d) else (0,)):
+        history_oracle1(ctx, d, fail, variant)
+
+
+def history_oracle1(ctx, d, fail, variant):
     cls = CLASSNAME[d[0]]
     inp = {"lattice": d, "history": "construct; modify constructor arguments; repeat { observe; write into returned arrays }"}
     fail = fail or ctx.fail
@@ -419,20 +440,22 @@ def history_oracle(ctx, d, fail=None):
         return                                 # refused by the constructor / reported by oracle()
     own = []
     try:
-        latt = build_owned(d, own)
+        latt = build_owned(d, own, variant)
     except Exception as e:
-        fail(cls + ":constructor-refuses-list-arguments", inp, "same lattice as from tuples", repr(e))
-        return
+        # lists refused where tuples are accepted: not a matter of this property; go on with tuples
+        ctx.count("history:list-arguments-refused")
+        own = []
+        latt = build(d)
 
-    def look(sig_of, what):
+    def look(kind, what):
         try:
             s, A, co = observe(latt)
         except Exception as e:
-            fail(cls + ":" + sig_of("call") + "-raises", inp, "same results as a fresh lattice", repr(e))
+            fail(cls + ":raises-after-" + HIST_RAISE[kind], inp, "same results as a fresh lattice", repr(e))
             return None
         df = snap_diff(ref, s)
         if df is not None:
-            fail(cls + ":" + sig_of(df), inp, "results of a fresh %s of the same defining data" % cls,
+            fail(cls + ":" + df + "-" + HIST_SIG[kind], inp, "results of a fresh %s of the same defining data" % cls,
                  {"differs": df, "after": what, "adjacency": s[1].tolist() if s[1].size <= 64 else "..."})
             return None
         return s, A, co
@@ -449,12 +472,11 @@ def history_oracle(ctx, d, fail=None):
                 pass
         else:
             scribble(x, 0)
-    r = look(lambda op: "%s-changed-by-modifying-a-constructor-argument-afterwards" % op,
-             "in-place modification of " + ", ".join(sorted({w for w, _ in own})))
+    r = look("ctor", "in-place modification of " + ", ".join(sorted({w for w, _ in own})))
     if r is None:
         return
     # 2. repeated calls without interference, then with in-place writes into everything returned
-    r2 = look(lambda op: "%s-differs-between-identical-calls" % op, "a second identical call")
+    r2 = look("repeat", "a second identical call")
     if r2 is None:
         return
     wrote = False
@@ -463,13 +485,17 @@ def history_oracle(ctx, d, fail=None):
         wrote |= scribble(A, mode)
         for c in co:
             wrote |= scribble(c, mode)
-        r2 = look(lambda op: "%s-changed-by-in-place-modification-of-an-earlier-result" % op,
-                  "writing into the arrays returned by the previous calls (pattern %d)" % mode)
+        r2 = look("write", "writing into the arrays returned by the previous calls (pattern %d)" % mode)
         if r2 is None:
             return
     if wrote:
         ctx.count("history:wrote-into-returned-array")
     # 3. the geometric reference on the used object, and on a fresh object constructed after all of this
+    #    (only if a lattice without history passes it: otherwise the same defect would be reported three times)
+    plain = []
+    oracle(ctx, d, fail=lambda *a: plain.append(a))
+    if plain:
+        return
     oracle(ctx, d, fail=fail, latt=latt, tag=":after-in-place-modification-of-earlier-results")
     try:
         fresh = build(d)
@@ -486,6 +512,9 @@ def history_oracle(ctx, d, fail=None):
 
 
 # ----------------------------------------------------------------------------- case generation
+BIG2 = [(6, 6), (6, 7), (7, 6), (7, 7), (1, 8), (8, 1), (1, 9), (9, 1), (8, 6), (2, 9), (9, 2), (8, 8)]
+
+
 def box(shape, lo=-1, extra=1):
     return itertools.product(*[range(lo, n + extra) for n in shape])
 
@@ -513,6 +542,23 @@ def families(ctx):
             for p0 in (False, True):
                 for p1 in (False, True):
                     out.append(["ofc", s0, s1, p0, p1])
+    # fixed larger shapes beyond the exhaustive box: every odd/even mix of both extents at size >= 6, 1 x N, N x 1
+    for (s0, s1) in BIG2:
+        for up in (True, False):
+            out.append(["hex", s0, s1, up])
+            for dele in (False, True):
+                out.append(["brick", s0, s1, up, dele])
+        for p0 in (False, True):
+            for p1 in (False, True):
+                if not ((p0 and s0 % 2) or (p1 and s1 % 2)):
+                    out.append(["ofc", s0, s1, p0, p1])
+        for pbc in itertools.product((False, True), repeat=2):
+            out.append(["tri", [s0, s1], list(pbc)])
+    for sh in [(11,), (1, 9), (9, 1), (6, 7), (2, 3, 7), (7, 3, 2), (1, 6, 1), (2, 2, 2, 3)]:
+        pats = {tuple(False for _ in sh), tuple(True for _ in sh), tuple(k % 2 == 0 for k in range(len(sh))),
+                tuple(k % 2 == 1 for k in range(len(sh)))}
+        for pbc in sorted(pats):
+            out.append(["int", list(sh), list(pbc)])
     for sh in [(1,), (2,), (5,), (2, 3), (3, 1, 2), (1, 1), ()] + ([(7,), (2, 2, 2)] if T else []):
         out.append(["full", list(sh)])
     rng = ctx.rng
@@ -655,13 +701,13 @@ def run(ctx):
         for i in range(-1, top):
             try:
                 c = latt.index_to_coord(i)
-                e = ct.opt(zlist(enc_coord(d, c)))
-            except Inexact as e:
-                ctx.fail(cls + ":coordinate-off-grid", {"lattice": d, "i": i}, "exact grid coordinate", str(e))
-                e = "None"
+                ent = ct.opt(zlist(enc_coord(d, c)))
+            except Inexact as ex:
+                ctx.fail(cls + ":coordinate-off-grid", {"lattice": d, "i": i}, "exact grid coordinate", str(ex))
+                ent = "None"
             except Exception:
-                e = "None"
-            tab.append(ct.pair(ct.z(i), e))
+                ent = "None"
+            tab.append(ct.pair(ct.z(i), ent))
         add("CI2C %s %s" % (L, ct.lst(tab)), {"lattice": d, "op": "index_to_coord"}, nt)
         # coord_to_index table
         cands = coord_candidates(ctx, d, latt, coords)
@@ -693,6 +739,56 @@ def run(ctx):
     for i, dsc in dis[:8]:
         ctx.log("model/impl disagree on", dsc)
     ctx.exhaustive = {"domain": "see rule", "lattices": len(fams)}
+    known = ctx.known_sigs()
+    if ctx.broken and not [f for f in ctx.failing if f["sig"] not in known]:
+        # an obligation (translator / theorem / correspondence) is broken but no lattice of the standard
+        # families violates the property: look for a failing input on a deeper domain before giving up
+        ctx.log("broken obligation without failing input: deep oracle sweep")
+        seen = {repr(d) for d in fams}
+        nd = 0
+        for d in deep_families():
+            if repr(d) in seen:
+                continue
+            nd += 1
+            res = oracle(ctx, d)
+            if res is not None and d[0] == "ofc" and res[2] is not None and not (d[3] or d[4]):
+                edge_oracle(ctx, d, res[0], res[2])
+        ctx.count("deep-sweep-lattices", nd)
+        ctx.log("deep sweep: %d further lattices, %d failing signatures" % (nd, len(ctx.failing)))
+
+
+def deep_families():
+    """oracle-only domain used when an obligation is broken and the standard families show no violation"""
+    M = 11
+    for s0 in range(1, M + 1):
+        for s1 in range(1, M + 1):
+            for up in (True, False):
+                yield ["hex", s0, s1, up]
+                for dele in (False, True):
+                    yield ["brick", s0, s1, up, dele]
+            for p0 in (False, True):
+                for p1 in (False, True):
+                    if not ((p0 and s0 % 2) or (p1 and s1 % 2)):
+                        yield ["ofc", s0, s1, p0, p1]
+            if s0 <= 9 and s1 <= 9:
+                for pbc in itertools.product((False, True), repeat=2):
+                    yield ["tri", [s0, s1], list(pbc)]
+                    yield ["int", [s0, s1], list(pbc)]
+    for n in range(1, 16):
+        for p in (False, True):
+            yield ["int", [n], [p]]
+            yield ["tri", [n], [p]]
+        yield ["full", [n]]
+    for sh in itertools.product(range(1, 6), repeat=3):
+        for pbc in itertools.product((False, True), repeat=3):
+            yield ["int", list(sh), list(pbc)]
+    for sh in itertools.product(range(1, 4), repeat=4):
+        for pbc in ((False,) * 4, (True,) * 4, (True, False, True, False), (False, True, False, True)):
+            yield ["int", list(sh), list(pbc)]
+    for b in (["int", [3], [True]], ["int", [2, 3], [False, True]], ["hex", 1, 1, True], ["ofc", 3, 3, False, False],
+              ["full", [2]], ["custom", [3], [[0, 1, 0], [1, 0, 1], [0, 1, 0]]], ["brick", 2, 2, False, False]):
+        for nl in range(1, 9):
+            yield ["layer", b, nl]
 
 
 PROOF_TARGETS = []
